@@ -407,6 +407,11 @@ func c45Keep(s c45Stage, x int64) bool {
 }
 
 func c45Abs(x int64) int64 {
+	if x == -1<<63 {
+		// -x wraps back to MinInt64 (Scan accumulators do overflow): a negative "count" would make
+		// the harness's own stage functions panic, which is not a property of the streams package
+		return 1<<63 - 1
+	}
 	if x < 0 {
 		return -x
 	}
